@@ -1249,7 +1249,7 @@ static void validate(const FitCase& c, Model& m, const std::string& site, Ctx& c
 // process (ITIMER_VIRTUAL: independent of the load of the machine; ordinary cases need 0.01-10 s under ASan with
 // maxiter <= 100) is reported as not terminating.  The call is left by siglongjmp (single thread, no lock held by the
 // fitting code; what it allocated is leaked).
-static const int kCpuLimit = 60;
+static const int kCpuLimit = 30;
 static sigjmp_buf gJmp;
 static volatile sig_atomic_t gArmed = 0;
 static void onCpuAlarm(int)
